@@ -42,6 +42,25 @@ def tasks(tier, seed):
                             'ends abruptly), then %s, ...: leak / lifetime checks' % (steps, OPS[b]),
                        reach=('h_hist:end',), bounds='history length %d' % steps,
                        kinds={'assert', 'memory', 'leak', 'uncaught_exception', 'terminate', 'deadlock', 'hang', 'limit'}))
+    # the file exists but is not a BLF file (wrong signature): open() throws before the workers exist
+    for b in (6, 7):
+        txt = '#define VP_FS_CAP 4096\n#define STEPS %d\n#define FIRST_OP 2\n#define SECOND_OP %d\n#define GARBAGE_FILE 1\n' % (min(steps, 4), b) + src
+        ts.append(Task('hist_garbage.open_valid.%s' % OPS[b].split('(')[0], txt, 'h_hist', None,
+                       opts=dict(validate=False, extra=['zlib_stub.cpp'], limit_is_hang=True, max_wall=1500, max_steps=6000000, enum_limit=400,
+                                 max_paths=400000),
+                       desc='histories starting with open(in) of an existing file with a wrong signature (open throws, no worker '
+                            'threads exist), then %s, ...: no crash, everything released' % OPS[b],
+                       reach=('h_hist:end',), bounds='history length %d' % min(steps, 4),
+                       kinds={'assert', 'memory', 'leak', 'uncaught_exception', 'terminate', 'deadlock', 'hang', 'limit'}))
+    # a write session whose compression fails (level 10 is documented in File.h but rejected by zlib), back-pressure
+    # thresholds scaled down: the session must still end, every object must be released
+    for t0 in SC.session_tasks('quick', [], 'session_level10', None, nobj=7, scaled=True)[:1]:
+        t0.text = t0.text.replace('#define CFG_LEVEL 0', '#define CFG_LEVEL 10').replace('#define CFG_LEVEL 6', '#define CFG_LEVEL 10')
+        t0.text = '#define WRITE_ONLY_SESSION 1\n' + t0.text
+        t0.tid = 'session_level10_scaled'
+        t0.desc = 'write session with compressionLevel 10 (compress2 fails), 7 objects, queue capacity 2, small stream buffer: close() returns, nothing leaked'
+        t0.kinds = {'memory', 'leak', 'uncaught_exception', 'terminate', 'deadlock', 'hang', 'limit'}
+        ts.append(t0)
     meta = dict(
         level='model_checking',
         explanation='Histories of API calls are enumerated completely up to the bound (structural choices fork paths); each runs the '
